@@ -117,6 +117,15 @@ def setup_code(rng, names):
         if rng.random() < 0.3:
             evs = names.of('event', 'timeout', 'proc', 'cond')
             code.append(['newcond', names.new('cond'), rng.choice(['all', 'any']), ['members'] + rng.sample(evs, min(len(evs), rng.randint(1, 3)))])
+        if rng.random() < 0.25 and len(names.of('event', 'timeout', 'proc')) >= 3:
+            # a mixed nested condition such as (a & b) | c, waited for by a process of its own
+            leaves = rng.sample(names.of('event', 'timeout', 'proc'), 3)
+            inner = names.new('cond')
+            outer = names.new('cond')
+            k1 = rng.choice(['all', 'any'])
+            code.append(['newcond', inner, k1, ['members'] + leaves[:2]])
+            code.append(['newcond', outer, 'any' if k1 == 'all' else 'all', ['members', inner, leaves[2]]])
+            code.append(['newproc', names.new('proc'), ['gen', ['yield', outer, 1], ['plog', 7]]])
         if rng.random() < 0.2:
             code.append(['addcb', rng.choice(names.of('event', 'timeout', 'proc', 'cond')), rng.randint(40, 49)])
     return code
